@@ -80,20 +80,33 @@ theorem sel_ok (q : Query) (hq : selOK d q = true) (rest : List Tok) (hr : stops
     simp only [toksSel, h1, Bool.false_eq_true, if_false] at hf ⊢
     exact C03.tquery2 d q h2 rest (sa_q2 hr) f (by omega)
 
-theorem createAs_ok (t : TableName) (q : Query) (ht : TDM2.tblOKD t = true) (hq : selOK d q = true)
-    (rest : List Tok) (hr : stopsAny d rest = true) (f : Nat) (hf : 20 * sizeL (toksCreateAs d t q) + 16 ≤ f) :
-    pStatement d f (toksCreateAs d t q ++ rest) = .ok (.createTableAs t q, rest) := by
-  simp only [toksCreateAs, sizeL_cons, size_opTok] at hf
+theorem createAs_ok (t : TableName) (ine : Bool) (q : Query) (ht : TDM2.tblOKD t = true) (hq : selOK d q = true)
+    (rest : List Tok) (hr : stopsAny d rest = true) (f : Nat) (hf : 20 * sizeL (toksCreateAs d t ine q) + 16 ≤ f) :
+    pStatement d f (toksCreateAs d t ine q ++ rest) = .ok (.createTableAs t ine q, rest) := by
   have h1 : pTblName (tbl t :: opTok "AS" :: (toksSel d q ++ rest)) = .ok (t, _) := TDM2.tblName_ok t ht _ (by kw_simp)
-  have h2 := sel_ok q hq rest hr f (by omega)
-  unfold pStatement toksCreateAs
-  kw_simp
-  unfold pCreateTable
-  simp only [tbl_eq] at h1 ⊢
-  kw_simp
-  simp only [h1]
-  kw_simp
-  simp only [h2]
+  cases ine with
+  | false =>
+    simp only [toksCreateAs, Bool.false_eq_true, if_false, List.nil_append, sizeL_cons, size_opTok] at hf
+    have h2 := sel_ok q hq rest hr f (by omega)
+    unfold pStatement toksCreateAs
+    kw_simp
+    unfold pCreateTable
+    simp only [tbl_eq] at h1 ⊢
+    kw_simp
+    simp only [h1]
+    kw_simp
+    simp only [h2]
+  | true =>
+    simp only [toksCreateAs, if_true, List.cons_append, List.nil_append, sizeL_cons, size_opTok] at hf
+    have h2 := sel_ok q hq rest hr f (by omega)
+    unfold pStatement toksCreateAs
+    kw_simp
+    unfold pCreateTable
+    simp only [tbl_eq] at h1 ⊢
+    kw_simp
+    simp only [h1]
+    kw_simp
+    simp only [h2]
 
 /-! ### the new classes together -/
 theorem rest_ok (s : Stmt) (hs : FragRest d s = true) (rest : List Tok) (hr : stopsAny d rest = true) (f : Nat)
@@ -127,9 +140,9 @@ theorem rest_ok (s : Stmt) (hs : FragRest d s = true) (rest : List Tok) (hr : st
   | showColumns fr wh =>
     simp only [FragRest, Bool.and_eq_true] at hs
     exact showColumns_ok fr wh hs.1 hs.2 rest hr f hf
-  | createTableAs t q =>
+  | createTableAs t ine q =>
     simp only [FragRest, Bool.and_eq_true] at hs
-    exact createAs_ok t q hs.1 hs.2 rest hr f hf
+    exact createAs_ok t ine q hs.1 hs.2 rest hr f hf
   | _ => simp [FragRest] at hs
 
 /-! ### the union -/
@@ -166,7 +179,7 @@ theorem any_ok (s : Stmt) (hs : FragAny d s = true) (rest : List Tok) (hr : stop
   | showDatabases => exact hR (.showDatabases) (by simpa [FragAny, TDM2.FragStmt] using hs) hf
   | showTables => exact hR (.showTables) (by simpa [FragAny, TDM2.FragStmt] using hs) hf
   | showColumns fr wh => exact hR (.showColumns fr wh) (by simpa [FragAny, TDM2.FragStmt] using hs) hf
-  | createTableAs t q => exact hR (.createTableAs t q) (by simpa [FragAny, TDM2.FragStmt] using hs) hf
+  | createTableAs t ine q => exact hR (.createTableAs t ine q) (by simpa [FragAny, TDM2.FragStmt] using hs) hf
 
 /-- **the union contains the data-change fragment over `FragQ`** (Props/C03D.lean), with the same rendering -/
 theorem any_of_fragStmt (s : Stmt) (hs : TDM.FragStmt d s = true) : FragAny d s = true ∧ toksAny d s = TDM.toksStmt d s := by
